@@ -130,6 +130,9 @@ func (c *Ctx) Violation(signature, detail string, data interface{}) {
 // Violations returns the number of violations recorded so far in this case.
 func (c *Ctx) Violations() int { return c.nviol }
 
+// Inconclusives returns what was recorded as undecidable in this case.
+func (c *Ctx) Inconclusives() []string { return c.res.Inconclusive }
+
 // Inconclusive records that something could not be decided.
 func (c *Ctx) Inconclusive(format string, a ...interface{}) {
 	c.res.Inconclusive = append(c.res.Inconclusive, fmt.Sprintf(format, a...))
@@ -432,7 +435,7 @@ func ParentMain(id, tier string, seed int64, self string) int {
 		fmt.Fprintln(os.Stderr, err)
 		return 2
 	}
-	keepWork := false
+	keepWork := os.Getenv("PVH_KEEP_WORK") != ""
 	defer func() {
 		if !keepWork {
 			os.RemoveAll(work)
